@@ -146,3 +146,15 @@ var _ = pr.AutoF
 //@   nopanic
 //@   let inTable = t == TableT || t == InlineTableT
 //@   ensures result == (((type_ == TableRowGroupT || type_ == TableColumnGroupT || type_ == TableCaptionT) && inTable) || (type_ == TableRowT && (inTable || t == TableRowGroupT)) || (type_ == TableColumnT && (inTable || t == TableColumnGroupT)))
+
+// collapsing border model: the border grids have gridHeight rows of vertical borders and gridHeight+1 rows of
+// horizontal ones; the table's own borders are read from the first row and the outer lines, which exist
+// (an empty grid is left alone before anything is indexed)
+//@ func collapseTableBorders
+//@   props C01 C13
+//@   modifies anything
+//@   unclaimed call-*-pre* "style and box accessors on table boxes"
+//@   call maxHorizontalWidth#3 assert[top-line] arg0 == 0 && arg1 == 0 && arg2 == gridWidth && gridWidth != 0 && gridHeight >= 1
+//@   call maxHorizontalWidth#4 assert[bottom-line] arg0 == 0 && arg1 == gridHeight && arg2 == gridWidth
+//@   call maxVerticalWidth#3 assert[left-line-first-row] arg0 == 0 && arg1 == 0 && arg2 == 1 && gridHeight >= 1
+//@   call maxVerticalWidth#4 assert[right-line-first-row] arg0 == gridWidth && arg1 == 0 && arg2 == 1 && gridHeight >= 1
